@@ -640,3 +640,48 @@ def override_consulted_first(repo: Repo, rep: Report, rule: str) -> None:
                           "an override declared for the type (field option, Config / dialect strategy) must be consulted for every type family "
                           "before anything else decides; the sibling creators of the other direction / the schema do so", loc=_loc(fi, first or fi.node))
     rep.floor(rule, 3)
+
+
+# ------------------------------------------------------------------------------------------------ namespace defaults
+def namespace_default_is_value(repo: Repo, rep: Report, rule: str) -> None:
+    """Instance.fields may take a field's default from the class namespace; a dataclass with slots=True keeps a
+    *member descriptor* under the name of every field there, which is not a default value.  Every assignment
+    `x = <...>.namespace.get(<name>, MISSING)` in the schema module is therefore followed, in the same block, by
+    `if isinstance(x, MemberDescriptorType): x = MISSING` (or the namespace is not consulted at all)."""
+    fi = repo.func(M_SCHEMA, "Instance.fields")
+    n = 0
+
+    def blocks(node):
+        for ch in ast.walk(node):
+            for attr in ("body", "orelse", "finalbody"):
+                b = getattr(ch, attr, None)
+                if isinstance(b, list) and b and isinstance(b[0], ast.stmt):
+                    yield b
+
+    for body in blocks(fi.node):
+        for i, st in enumerate(body):
+            if not (isinstance(st, ast.Assign) and len(st.targets) == 1 and isinstance(st.targets[0], ast.Name)
+                    and isinstance(st.value, ast.Call) and isinstance(st.value.func, ast.Attribute) and st.value.func.attr == "get"
+                    and ast.unparse(st.value.func.value).endswith("namespace")):
+                continue
+            n += 1
+            x = st.targets[0].id
+            guarded = False
+            for nx in body[i + 1:]:
+                if isinstance(nx, ast.If) and isinstance(nx.test, ast.Call) and ast.unparse(nx.test.func) == "isinstance" and len(nx.test.args) == 2 \
+                        and ast.unparse(nx.test.args[0]) == x and "MemberDescriptorType" in ast.unparse(nx.test.args[1]) \
+                        and any(ast.unparse(s) == f"{x} = MISSING" for s in nx.body):
+                    guarded = True
+                    break
+                if any(isinstance(k, ast.Name) and k.id == x for k in ast.walk(nx)):
+                    break  # used before any such guard
+            inst = f"Instance.fields: `{ast.unparse(st)[:70]}`"
+            if guarded:
+                rep.ok(rule, inst + " is filtered for slot member descriptors", None)
+            else:
+                rep.violation(rule, fi.key, inst + " may yield a slot member descriptor",
+                              "for a dataclass with slots=True the class namespace holds a member descriptor under each field name: it is "
+                              "rendered as the field's `default`, which is not a JSON value (the schema document cannot be serialized)", loc=_loc(fi, st))
+    if n == 0:
+        rep.ok(rule, "Instance.fields does not consult the class namespace for defaults", None)
+    rep.floor(rule, 1)
